@@ -127,8 +127,8 @@ def main():
         "checks": checks,
         "notes": "All checks: exit 0 held / 1 VIOLATION line / 2 inconclusive. VERIF_SEED seeds every generator (default 1). Known findings: /verif/known_findings.json.",
     }
-    if na:
-        m["not_applicable"] = na
+    # all 19 properties are claimed: the list is written even when empty so that the file says so
+    m["not_applicable"] = na
     json.dump(m, open('/verif/MANIFEST.json', 'w'), indent=1)
     print("checks:", len(checks), "not_applicable:", len(na))
 
